@@ -46,11 +46,20 @@ def joinComma : List Runes → Runes
   | [x] => x
   | x :: rest => x ++ [44] ++ joinComma rest
 
+def joinPlus : List Runes → Runes
+  | [] => []
+  | [x] => x
+  | x :: rest => x ++ [43] ++ joinPlus rest
+
 /-- the attributes in the order they are written: RDNs last-to-first, attributes of an RDN in order -/
 def flattenRev (rdns : List (List (Oid × Runes))) : List (Oid × Runes) := rdns.reverse.flatten
 
-/-- `FromRDNSequence` -/
+/-- one RDN: its attributes joined with '+' -/
+def renderRDN (r : List (Oid × Runes)) : Runes := joinPlus (r.map renderAttr)
+
+/-- `FromRDNSequence`: RDNs last-to-first joined with ',', the attributes of each RDN joined with '+';
+    an RDN without attributes contributes nothing -/
 def fromRDNSequence (rdns : List (List (Oid × Runes))) : Runes :=
-  joinComma ((flattenRev rdns).map renderAttr)
+  joinComma ((rdns.reverse.filter (fun r => !r.isEmpty)).map renderRDN)
 
 end WhatIs.DN
